@@ -1,8 +1,437 @@
-//! Property check C12 (see /verif/DESIGN.md §4).
-use mc::{Level, Report};
+//! Property check C12 — canonical encodings are bijective (see /verif/DESIGN.md §4 "C12").
+//!
+//! Exploration over the shared codec table (`codecs` crate):
+//!  (a) round trip + writer determinism over bounded-exhaustive value generators;
+//!  (b) accepted ⇒ canonical over EVERY byte string of length ≤ 2 (quick) / ≤ 3 (thorough);
+//!  (c) every single-position mutation of every encoding from (a), same oracle;
+//!  (d) every NaN-class float header (all f16 NaNs; f32/f64 sign × mantissa alphabet);
+//!  (e) structure-aware alternative spellings of every DTO encoding.
+
+use codecs::classify::{classify, dto_shape_mutants, nan_inputs};
+use codecs::mutate::for_each_mutant;
+use codecs::{Codec, Decoded};
+use mc::{hex, json, unhex, Level, Report};
+use rayon::prelude::*;
+use std::collections::BTreeMap;
+
+const MUTATION_WINDOW: usize = 8192;
+
+struct Enc {
+    ci: usize,
+    label: String,
+    bytes: Vec<u8>,
+    repr: String,
+}
+
+#[derive(Default)]
+struct Local {
+    accepted: BTreeMap<usize, u64>,
+    rejected: BTreeMap<usize, u64>,
+    err_kinds: BTreeMap<(usize, String), u64>,
+    violations: Vec<(String, serde_json::Value)>,
+    noncanon_documented: BTreeMap<String, u64>,
+    keys: Vec<u128>,
+    evals: u64,
+    samples: Vec<serde_json::Value>,
+}
+
+impl Local {
+    fn merge(&mut self, o: Local) {
+        for (k, v) in o.accepted {
+            *self.accepted.entry(k).or_default() += v;
+        }
+        for (k, v) in o.rejected {
+            *self.rejected.entry(k).or_default() += v;
+        }
+        for (k, v) in o.err_kinds {
+            *self.err_kinds.entry(k).or_default() += v;
+        }
+        for (k, v) in o.noncanon_documented {
+            *self.noncanon_documented.entry(k).or_default() += v;
+        }
+        self.violations.extend(o.violations);
+        self.keys.extend(o.keys);
+        self.evals += o.evals;
+        for s in o.samples {
+            if self.samples.len() < 4 {
+                self.samples.push(s);
+            }
+        }
+    }
+}
+
+/// The accepted ⇒ canonical oracle on one (codec, input) pair.  `orig` = (bytes, repr) of the valid
+/// encoding the input was mutated from, if any.
+fn judge(table: &[Codec], ci: usize, input: &[u8], phase: &str, orig: Option<(&[u8], &str)>, l: &mut Local) {
+    let c = &table[ci];
+    l.evals += 1;
+    match (c.decode)(input) {
+        Err(kind) => {
+            *l.rejected.entry(ci).or_default() += 1;
+            *l.err_kinds.entry((ci, kind)).or_default() += 1;
+        }
+        Ok(Decoded { repr, reencoded }) => {
+            *l.accepted.entry(ci).or_default() += 1;
+            let mut key = c.name.as_bytes().to_vec();
+            key.push(0);
+            key.extend_from_slice(input);
+            l.keys.push(Report::key(&key));
+            let canonical_ok = reencoded.as_deref().ok() == Some(input);
+            if l.samples.len() < 2 {
+                l.samples.push(json!({"phase": phase, "codec": c.name, "input_hex": hex(&input[..input.len().min(48)]), "accepted_as": repr.chars().take(80).collect::<String>(), "reencodes_identically": canonical_ok}));
+            }
+            if !canonical_ok {
+                let sig = classify(c.group, &c.name, input, &reencoded);
+                if c.canonical {
+                    if l.violations.len() < 64 {
+                        l.violations.push((
+                            sig,
+                            json!({"case": {"codec": c.name, "input_hex": hex(input)}, "phase": phase,
+                                   "decoded": repr.chars().take(200).collect::<String>(),
+                                   "reencoded_hex": reencoded.as_ref().map(|b| hex(b)).unwrap_or_else(|e| format!("ENCODER-ERROR {e}")),
+                                   "anchor": c.anchor}),
+                        ));
+                    } else {
+                        l.violations.push((sig, json!({"case": {"codec": c.name, "input_hex": hex(input)}, "phase": phase})));
+                    }
+                } else {
+                    *l.noncanon_documented.entry(format!("{}:{}", c.name, sig)).or_default() += 1;
+                }
+            } else if let Some((ob, orepr)) = orig {
+                // canonical per re-encode, different bytes than the original: values must differ
+                if c.canonical && ob != input && repr == orepr {
+                    l.violations.push((
+                        format!("{}:two-encodings-one-value", c.group),
+                        json!({"case": {"codec": c.name, "input_hex": hex(input)}, "phase": phase, "original_hex": hex(ob), "value": repr.chars().take(200).collect::<String>()}),
+                    ));
+                }
+            }
+        }
+    }
+}
+
+fn flush(r: &Report, table: &[Codec], l: Local, phase: &str) -> (BTreeMap<usize, u64>, BTreeMap<usize, u64>) {
+    r.eval(l.evals);
+    r.counter(&format!("{phase}:inputs_evaluated"), l.evals);
+    r.nontrivial_many(l.keys.iter().copied());
+    for s in &l.samples {
+        r.sample(s.clone());
+    }
+    let mut kinds: BTreeMap<String, Vec<String>> = BTreeMap::new();
+    for ((ci, k), n) in &l.err_kinds {
+        r.outcome_n(&format!("rejected:{}:{}", table[*ci].group, k), *n);
+        kinds.entry(table[*ci].name.clone()).or_default().push(format!("{k}×{n}"));
+    }
+    r.note(&format!("{phase}:typed_errors_per_codec"), json!(kinds));
+    let mut acc = serde_json::Map::new();
+    for (ci, c) in table.iter().enumerate() {
+        let a = l.accepted.get(&ci).copied().unwrap_or(0);
+        let rj = l.rejected.get(&ci).copied().unwrap_or(0);
+        acc.insert(c.name.clone(), json!({"accepted": a, "rejected": rj}));
+    }
+    r.note(&format!("{phase}:accepted_rejected_per_codec"), serde_json::Value::Object(acc));
+    r.outcome_n(&format!("{phase}:accepted"), l.accepted.values().sum());
+    r.outcome_n(&format!("{phase}:rejected"), l.rejected.values().sum());
+    for (k, n) in &l.noncanon_documented {
+        r.counter(&format!("documented_decode_normalisation:{k}"), *n);
+    }
+    for (sig, d) in l.violations {
+        r.violation(&sig, d);
+    }
+    (l.accepted, l.rejected)
+}
+
+fn phase_a(r: &Report, table: &[Codec]) -> Vec<Enc> {
+    let thorough = r.thorough();
+    let mut encs = Vec::new();
+    let mut per_codec = serde_json::Map::new();
+    for (ci, c) in table.iter().enumerate() {
+        let samples = (c.samples)(thorough);
+        let mut n_ok = 0u64;
+        let mut n_variants = 0u64;
+        for s in &samples {
+            r.eval(1);
+            let case = |extra: serde_json::Value| json!({"case": {"codec": c.name, "sample": s.label}, "value": s.repr.chars().take(200).collect::<String>(), "detail": extra, "anchor": c.anchor});
+            let b = match &s.bytes {
+                Err(e) => {
+                    if s.in_domain {
+                        r.violation(&format!("{}:encoder-refuses-in-domain-value", c.group), case(json!({"encoder_error": e})));
+                    } else {
+                        r.outcome("a:encoder_rejects_outside_domain");
+                    }
+                    continue;
+                }
+                Ok(b) => b,
+            };
+            if s.bytes_again.as_ref().ok() != Some(b) {
+                r.violation(&format!("{}:encoder-nondeterministic", c.group), case(json!({"first": hex(b), "second": format!("{:?}", s.bytes_again.as_ref().map(|x| hex(x)))})));
+            }
+            for (vl, vb) in &s.variants {
+                n_variants += 1;
+                r.eval(1);
+                if vb.as_ref().ok() != Some(b) {
+                    r.violation(
+                        &format!("{}:construction-order-changes-encoding", c.group),
+                        case(json!({"variant": vl, "canonical_hex": hex(b), "variant_hex": format!("{:?}", vb.as_ref().map(|x| hex(x)))})),
+                    );
+                } else {
+                    r.outcome("a:construction_order_variant_encodes_identically");
+                }
+            }
+            match (c.decode)(b) {
+                Err(kind) => {
+                    if s.in_domain {
+                        r.violation(&format!("{}:decoder-rejects-own-encoding", c.group), case(json!({"bytes_hex": hex(&b[..b.len().min(256)]), "error": kind})));
+                    } else {
+                        r.outcome("a:encoder_accepts_outside_domain:undecodable_output");
+                        r.sample_force(json!({"encoder_accepts_outside_domain": c.name, "sample": s.label, "encoded_hex": hex(&b[..b.len().min(32)]), "decoder": format!("rejects ({kind})")}));
+                    }
+                }
+                Ok(d) => {
+                    if s.in_domain {
+                        if d.repr != s.expect_repr {
+                            r.violation(
+                                &format!("{}:roundtrip-value-mismatch", c.group),
+                                case(json!({"bytes_hex": hex(&b[..b.len().min(256)]), "decoded": d.repr.chars().take(200).collect::<String>()})),
+                            );
+                        } else {
+                            n_ok += 1;
+                            r.outcome("a:roundtrip_ok");
+                        }
+                    } else if d.repr == s.expect_repr && s.expect_repr != s.repr {
+                        r.outcome("a:encoder_accepts_outside_domain:documented_normalisation");
+                    } else if d.repr == s.repr {
+                        r.outcome("a:encoder_accepts_outside_domain:roundtrips");
+                    } else if s.expect_repr != s.repr {
+                        r.violation(&format!("{}:documented-normalisation-broken", c.group), case(json!({"expected": s.expect_repr, "decoded": d.repr})));
+                    } else {
+                        r.outcome("a:encoder_accepts_outside_domain:lossy");
+                        r.sample_force(json!({"encoder_accepts_outside_domain": c.name, "sample": s.label, "encoded_hex": hex(&b[..b.len().min(32)]), "decodes_as": d.repr.chars().take(80).collect::<String>()}));
+                    }
+                    if d.reencoded.as_deref().ok() != Some(b.as_slice()) {
+                        r.violation(
+                            &format!("{}:reencode-of-own-encoding-differs", c.group),
+                            case(json!({"bytes_hex": hex(&b[..b.len().min(256)]), "reencoded": format!("{:?}", d.reencoded.as_ref().map(|x| hex(&x[..x.len().min(256)])))})),
+                        );
+                    }
+                    let mut key = c.name.as_bytes().to_vec();
+                    key.push(1);
+                    key.extend_from_slice(b);
+                    r.nontrivial(&key);
+                    encs.push(Enc { ci, label: s.label.clone(), bytes: b.clone(), repr: d.repr });
+                }
+            }
+        }
+        if let Some(s) = samples.iter().find(|s| s.bytes.is_ok() && s.in_domain) {
+            if ci % 7 == 0 {
+                r.sample(json!({"phase": "a", "codec": c.name, "sample": s.label, "encoding_hex": hex(&s.bytes.as_ref().unwrap()[..s.bytes.as_ref().unwrap().len().min(40)])}));
+            }
+        }
+        per_codec.insert(c.name.clone(), json!({"values": samples.len(), "roundtrip_ok": n_ok, "order_variants": n_variants, "canonical_form_codec": c.canonical}));
+        r.guard(&format!("a:codec_has_roundtripping_samples:{}", c.name), n_ok >= 1);
+    }
+    // legacy forms that only have a reader
+    for (name, label, bytes, repr) in codecs::legacy_encodings() {
+        let Some(ci) = table.iter().position(|c| c.name == name) else {
+            r.machinery_error(&format!("legacy encoding for unknown codec {name}"));
+            continue;
+        };
+        r.eval(1);
+        match (table[ci].decode)(&bytes) {
+            Ok(d) => {
+                if d.repr != repr {
+                    r.violation("ingress-retention:legacy-form-decodes-to-different-value", json!({"case": {"codec": name, "input_hex": hex(&bytes)}, "sample": label}));
+                }
+                if d.reencoded.as_deref().ok() != Some(bytes.as_slice()) {
+                    r.violation("ingress-retention:legacy-form-not-its-own-canonical-form", json!({"case": {"codec": name, "input_hex": hex(&bytes)}, "sample": label}));
+                }
+                r.outcome("a:legacy_form_roundtrip_ok");
+                encs.push(Enc { ci, label, bytes, repr: d.repr });
+            }
+            Err(k) => r.violation("ingress-retention:legacy-canonical-form-rejected", json!({"case": {"codec": name, "input_hex": hex(&bytes)}, "sample": label, "error": k})),
+        }
+    }
+    r.note("a:per_codec", serde_json::Value::Object(per_codec));
+    r.counter("a:encodings_collected", encs.len() as u64);
+    encs
+}
+
+fn phase_b(r: &Report, table: &[Codec]) {
+    let max_len = r.pick(2usize, 3usize);
+    let mut total = Local::default();
+    // the empty string
+    for ci in 0..table.len() {
+        judge(table, ci, &[], "b", None, &mut total);
+    }
+    let mut strings = 1u64;
+    for len in 1..=max_len {
+        if r.over_budget_frac(0.6) {
+            r.cap_hit(&format!("byte sweep stopped before length {len}; lengths < {len} fully covered"));
+            break;
+        }
+        let shards: Vec<(Local, u64)> = (0u16..256)
+            .into_par_iter()
+            .map(|first| {
+                let mut l = Local::default();
+                let n = mc::enumerate::byte_strings_with_first(first as u8, len, |b| {
+                    for ci in 0..table.len() {
+                        judge(table, ci, b, "b", None, &mut l);
+                    }
+                });
+                (l, n)
+            })
+            .collect();
+        for (l, n) in shards {
+            strings += n;
+            total.merge(l);
+        }
+    }
+    r.counter("b:byte_strings", strings);
+    r.note("b:max_len", json!(max_len));
+    let expected: u64 = (0..=max_len as u32).map(|l| 256u64.pow(l)).sum();
+    r.guard("b:enumerated_every_byte_string_up_to_max_len", strings == expected || r.over_budget_frac(0.6));
+    let (acc, rej) = flush(r, table, total, "b");
+    for (ci, c) in table.iter().enumerate() {
+        let a = acc.get(&ci).copied().unwrap_or(0);
+        let rj = rej.get(&ci).copied().unwrap_or(0);
+        r.guard(&format!("b:decoder_rejects_something:{}", c.name), rj > 0);
+        // a decoder that accepts nothing in the sweep is fine only if its minimal encoding is longer
+        r.guard(&format!("b:decoder_accepts_something_or_min_len_exceeds_sweep:{}", c.name), a > 0 || c.min_len > max_len);
+        if a == 0 {
+            r.counter("b:decoders_with_min_encoding_longer_than_sweep", 1);
+        }
+    }
+}
+
+fn phase_c(r: &Report, table: &[Codec], encs: &[Enc]) {
+    let locals: Vec<Local> = encs
+        .par_iter()
+        .map(|e| {
+            let mut l = Local::default();
+            for_each_mutant(&e.bytes, MUTATION_WINDOW, |_kind, _pos, m| {
+                judge(table, e.ci, m, "c", Some((&e.bytes, &e.repr)), &mut l);
+            });
+            l
+        })
+        .collect();
+    let mut total = Local::default();
+    for l in locals {
+        total.merge(l);
+    }
+    let (acc, rej) = flush(r, table, total, "c");
+    for (ci, c) in table.iter().enumerate() {
+        let has = encs.iter().any(|e| e.ci == ci);
+        r.guard(&format!("c:mutants_rejected:{}", c.name), !has || rej.get(&ci).copied().unwrap_or(0) > 0);
+        let _ = acc.get(&ci);
+    }
+    r.guard("c:some_mutants_accepted_as_other_canonical_values", acc.values().sum::<u64>() > 0);
+    if let Some(e) = encs.iter().find(|e| table[e.ci].group == "wal-record") {
+        r.sample(json!({"phase": "c", "codec": table[e.ci].name, "sample": e.label, "encoding_len": e.bytes.len(), "mutants": "8 bit flips, ±1, 00/FF overwrite, delete, duplicate at every position"}));
+    }
+}
+
+fn phase_d(r: &Report, table: &[Codec]) {
+    let Some(ci) = table.iter().position(|c| c.name == "abi-cbor") else {
+        r.machinery_error("abi-cbor codec missing");
+        return;
+    };
+    let inputs = nan_inputs();
+    let mut l = Local::default();
+    for (_label, b) in &inputs {
+        judge(table, ci, b, "d", None, &mut l);
+    }
+    r.counter("d:nan_class_inputs", inputs.len() as u64);
+    let (acc, rej) = flush(r, table, l, "d");
+    r.guard("d:nan_inputs_exercised", acc.get(&ci).copied().unwrap_or(0) + rej.get(&ci).copied().unwrap_or(0) == inputs.len() as u64);
+    r.guard("d:f32_f64_nan_headers_rejected", rej.get(&ci).copied().unwrap_or(0) > 0);
+}
+
+fn phase_e(r: &Report, table: &[Codec], encs: &[Enc]) {
+    let mut l = Local::default();
+    let mut kinds: BTreeMap<&'static str, u64> = BTreeMap::new();
+    for e in encs {
+        let c = &table[e.ci];
+        let (payload, prefix): (&[u8], &[u8]) = if c.group == "abi-dto" {
+            (&e.bytes, &[])
+        } else if c.name == "control-intent-envelope-v1" && e.bytes.len() >= 12 {
+            (&e.bytes[12..], &e.bytes[..8])
+        } else {
+            continue;
+        };
+        for (kind, m) in dto_shape_mutants(payload) {
+            *kinds.entry(kind).or_default() += 1;
+            let input: Vec<u8> = if prefix.is_empty() {
+                m
+            } else {
+                let mut v = prefix.to_vec();
+                v.extend_from_slice(&(m.len() as u32).to_le_bytes());
+                v.extend_from_slice(&m);
+                v
+            };
+            judge(table, e.ci, &input, "e", Some((&e.bytes, &e.repr)), &mut l);
+        }
+    }
+    r.note("e:shape_mutants_by_kind", json!(kinds));
+    let (acc, rej) = flush(r, table, l, "e");
+    r.guard("e:shape_mutants_evaluated", acc.values().sum::<u64>() + rej.values().sum::<u64>() > 0);
+    r.guard("e:some_shape_mutants_rejected", rej.values().sum::<u64>() > 0);
+}
+
+fn replay(r: &Report, path: &std::path::Path, table: &[Codec]) {
+    let Ok(txt) = std::fs::read_to_string(path) else {
+        r.machinery_error("cannot read replay file");
+        return;
+    };
+    let Ok(v) = serde_json::from_str::<serde_json::Value>(&txt) else {
+        r.machinery_error("replay file is not JSON");
+        return;
+    };
+    let case = &v["detail"]["case"];
+    let (Some(codec), Some(input)) = (case["codec"].as_str(), case["input_hex"].as_str()) else {
+        r.machinery_error("replay file has no detail.case.{codec,input_hex} (round-trip cases are replayed by the quick tier)");
+        return;
+    };
+    let Some(ci) = table.iter().position(|c| c.name == codec) else {
+        r.machinery_error("unknown codec in replay file");
+        return;
+    };
+    let input = unhex(input);
+    let mut l = Local::default();
+    judge(table, ci, &input, "replay", None, &mut l);
+    println!("[C12] replay codec={codec} input={} accepted={} violations={}", hex(&input), l.accepted.get(&ci).copied().unwrap_or(0), l.violations.len());
+    r.rule("replay of one (codec, input) pair through the accepted ⇒ canonical oracle");
+    r.nontrivial(b"replay-1");
+    r.nontrivial(b"replay-2");
+    r.sample(json!({"replay": codec, "input_hex": hex(&input)}));
+    flush(r, table, l, "replay");
+}
 
 fn main() {
     let r = Report::new("C12", Level::Exploration);
-    r.machinery_error("check not implemented yet");
+    let table = codecs::table();
+    if let Some(p) = r.replay.clone() {
+        replay(&r, &p, &table);
+        r.finish();
+    }
+    r.rule(
+        "per codec of the shared table: (a) every value of a bounded-exhaustive generator (boundary integers 0,23,24,255,256,65535,65536,2^32±1,2^53,2^63±1,2^64−1 and negatives; one float per class per width incl. NaN/±inf/±0/subnormal/integral; empty/1/2-element and depth≤3 arrays/maps; strings of length 0,1,2,23,24,255,256(,65535,65536); maps in every insertion order) is encoded twice, decoded, compared and re-encoded; (b) EVERY byte string of length ≤2 (quick) / ≤3 (thorough) is fed to EVERY decoder, accepted ⇒ encode(decode(b)) == b; (c) every single-position mutant (8 bit flips, ±1, 00, FF, delete, duplicate) of every encoding of (a) within an 8 KiB window, same oracle plus 'same value ⇒ same bytes'; (d) every f16 NaN and sign×mantissa-alphabet f32/f64 NaNs (bare, in an array, as a map value); (e) structure-aware alternative spellings of every DTO encoding. distinct_nontrivial = distinct (codec, byte string) pairs that a decoder ACCEPTED (the oracle only bites on accepted inputs).",
+    );
+    r.assume("value equality is equality of the Debug rendering of the decoded value (all NaNs are one value); the real encoder applied to the decoded value is the canonical form (EINGR001: the v2 writer's bytes under the v1 magic, the gate head_inbox.rs itself defines)");
+    r.assume("ABI value domain = docs/spec/js-cbor-mapping.md: integral floats are ints, integers are i64 ∪ u64; values outside it are counted as encoder_accepts_outside_domain, never as violations");
+    r.assume("le-codec f32: the reader documents that it canonicalises on decode; accepted non-canonical f32 inputs are counted under documented_decode_normalisation, not flagged");
+    r.note("codecs", json!(table.iter().map(|c| json!({"name": c.name, "canonical_form": c.canonical, "min_valid_len": c.min_len, "anchor": c.anchor})).collect::<Vec<_>>()));
+    r.note("not_covered", json!(codecs::not_covered().iter().map(|(a, b)| json!({"pair": a, "reason": b})).collect::<Vec<_>>()));
+    r.counter("codecs_in_table", table.len() as u64);
+    r.counter("canonical_form_codecs", table.iter().filter(|c| c.canonical).count() as u64);
+
+    let encs = phase_a(&r, &table);
+    phase_b(&r, &table);
+    phase_c(&r, &table, &encs);
+    phase_d(&r, &table);
+    phase_e(&r, &table, &encs);
+
+    r.guard("table_has_all_codec_groups", ["abi-cbor", "abi-dto", "intent-envelope", "eintlog", "le-codec", "edict-cbor", "ingress-retention", "provenance-retention", "wal-record", "tick-receipt", "mbus-frame", "scene-cbor", "wsc"].iter().all(|g| table.iter().any(|c| c.group == *g)));
+    r.guard("saw_roundtrips", r.outcome_count("a:roundtrip_ok") > 100);
+    r.guard("saw_order_variants", r.outcome_count("a:construction_order_variant_encodes_identically") > 10);
     r.finish();
 }
